@@ -209,6 +209,7 @@ class LThread:
         self.exc = None
         self.thread = None
         self.is_bg = False
+        self.spun = False           # its last poll() failed the try-lock and returned at once
         self.in_close = False       # inside Connection.close(): its own HANDLE_CLOSE request is not a model action
 
 
@@ -315,7 +316,16 @@ class Sched:
                         self.log_env("stop:%d" % th.tid, "stop", th.tid, th)
                 elif isinstance(when, tuple) and when[0] == "prelocal":
                     t = frame.f_locals.get(when[1])
-                    self.log(th, label, ("exit" if t.expired() else "loop") if isinstance(t, Timeout) else "?")
+                    if isinstance(t, Timeout) and th.spun and not t.expired():
+                        # poll_all spinning on a taken receive lock: further iterations change nothing until another
+                        # thread acts or time passes (stuttering); park until then -- before the expiry test, so that
+                        # the test is observed and executed in the same step -- instead of spinning in zero time
+                        mark, t0 = len(self.trace), self.now
+                        th.spun = False
+                        self.block(th, "spin", lambda: len(self.trace) > mark or self.now > t0,
+                                   t.tmax if t.finite else None)
+                    obs = ("exit" if t.expired() else "loop") if isinstance(t, Timeout) else "?"
+                    self.log(th, label, obs)
                 elif when == "pre":
                     self.log(th, label, self._observe_pre(label, frame))
                     if label == "d5":
@@ -447,6 +457,7 @@ class SLock:
         if self.holder is None:
             self.holder = th.tid
             th.phase = "s2ok"
+            th.spun = False
             s.log(th, "s2", "ok")
             return True
         th.phase = "s2fail"
@@ -506,6 +517,7 @@ class SCond:
             s.log(th, "s2r")
         elif th.phase == "s2fail":
             th.phase = None
+            th.spun = True
             s.log(th, "s2f")
         else:
             s.log(th, "condrelease", th.phase)
